@@ -340,14 +340,20 @@ fn known_reproducer(rep: &mut Report) {
 pub fn run(ctx: &Ctx) -> i32 {
     std::env::set_var("VERIF_TIER", &ctx.tier);
     let mut rep = Report::new();
-    known_reproducer(&mut rep);
-    run_cases(ctx, &mut rep, "silence", ctx.cases(150_000, 3_000_000), case_silence);
-    run_cases(ctx, &mut rep, "better-master", ctx.cases(100_000, 2_000_000), case_master);
     // the real daemon as the host: its timer handling in statime-linux/src/main.rs, in real time
     let workers = (ctx.threads as u64 / 2).clamp(2, 8);
-    let sum = crate::daemon::run_part(ctx, &mut rep, ctx.cases(3 * workers, 100 * workers), workers);
+    let sum = crate::daemon::run_part(ctx, &mut rep, ctx.cases(3 * workers, 40 * workers), workers);
     if let Some(why) = &sum.skipped {
         println!("note: end-to-end daemon part skipped ({}); the other parts are unaffected", why);
+    }
+    // a violation seen on the real daemon is reported at once: the in-process parts drive the same code in this
+    // process, and a change that makes it loop for ever would hang them (watchdog, exit 2) instead of being reported
+    if rep.violations.is_empty() {
+        known_reproducer(&mut rep);
+        run_cases(ctx, &mut rep, "silence", ctx.cases(150_000, 3_000_000), case_silence);
+        run_cases(ctx, &mut rep, "better-master", ctx.cases(100_000, 2_000_000), case_master);
+    } else {
+        println!("end-to-end part found a violation; in-process parts skipped");
     }
     finish(
         Finish {
